@@ -74,6 +74,8 @@ FUNCTIONS = [
     ('checkpoint_handle', 'dataflows.processors.checkpoint', ['checkpoint', 'handle_flow_checkpoint'], ['self.steps']),
     ('checkpoint_preprocess', 'dataflows.processors.checkpoint', ['checkpoint', '_preprocess_chain'],
      ['self.filename', 'self.chain', 'self.checkpoint_path', 'self.checkpoint_name']),
+    # extended JSON: the encoder's dispatch on the type of a value
+    ('ejson_default', 'dataflows.helpers.extended_json', ['CommonJSONEncoder', 'default'], ['TIME_F_FORMAT', 'DATETIME_F_FORMAT', 'DATE_F_FORMAT']),
     # the exception funnel of the driver
     ('raise_exception', 'dataflows.base.datastream_processor', ['DataStreamProcessor', 'raise_exception'], ['self.__class__', 'self.position']),
     ('default_process_resource', 'dataflows.base.datastream_processor', ['DataStreamProcessor', 'process_resource']),
@@ -267,7 +269,7 @@ class Tr:
                 return out
             return self.call(f.id, args)
         if isinstance(f, ast.Attribute):
-            if isinstance(f.value, ast.Name) and f.value.id in ('re', 'collections', 'copy', 'os', 'json', 'itertools', 'logging', 'exceptions'):
+            if isinstance(f.value, ast.Name) and f.value.id in ('re', 'collections', 'copy', 'os', 'json', 'itertools', 'logging', 'exceptions', 'isodate', 'decimal', 'datetime'):
                 mod = f.value.id
                 name = {'collections': f.attr, 'copy': f.attr}.get(mod, '%s.%s' % (mod, f.attr))
                 return self.call(name, args)
